@@ -28,6 +28,7 @@ var props = map[string]func(*Ctx){
 	"C12": propC12,
 	"C13": propC13,
 	"C14": propC14,
+	"C15": propC15,
 	"C17": propC17,
 	"C19": propC19,
 	"C20": propC20,
